@@ -10,6 +10,7 @@ package invoices
 //@
 //@ func updateMpp
 //@   props C15
+//@   bounds-safe
 //@   requires 0 <= ctx.currentHeight && ctx.currentHeight <= 1<<30
 //@   requires 0 <= ctx.finalCltvRejectDelta && ctx.finalCltvRejectDelta <= 1<<20
 //@   requires 0 <= inv.Terms.FinalCltvDelta && inv.Terms.FinalCltvDelta <= 1<<20
@@ -34,6 +35,7 @@ package invoices
 //@
 //@ func updateLegacy
 //@   props C15
+//@   bounds-safe
 //@   requires 0 <= ctx.currentHeight && ctx.currentHeight <= 1<<30
 //@   requires 0 <= ctx.finalCltvRejectDelta && ctx.finalCltvRejectDelta <= 1<<20
 //@   requires 0 <= inv.Terms.FinalCltvDelta && inv.Terms.FinalCltvDelta <= 1<<20
@@ -56,6 +58,7 @@ package invoices
 //@
 //@ func resolveReplayedHtlc
 //@   props C15
+//@   bounds-safe
 //@   site call settleRes: assert htlc.State == HtlcStateSettled && arg(outcome) == ResultReplayToSettled &&
 //@        (ret(IsAMP)  ==> ret(Matches, 0) && htlc.AMP.Hash == ctx.hash && arg(preimage) == *htlc.AMP.Preimage) &&
 //@        (!ret(IsAMP) ==> ret(Matches, 1) && arg(preimage) == *inv.Terms.PaymentPreimage)
@@ -66,6 +69,7 @@ package invoices
 //@
 //@ func updateInvoice
 //@   props C15
+//@   bounds-safe
 //@   requires 0 <= ctx.currentHeight && ctx.currentHeight <= 1<<30
 //@   requires 0 <= ctx.finalCltvRejectDelta && ctx.finalCltvRejectDelta <= 1<<20
 //@   requires 0 <= inv.Terms.FinalCltvDelta && inv.Terms.FinalCltvDelta <= 1<<20
@@ -75,6 +79,7 @@ package invoices
 //@
 //@ func getUpdatedInvoiceState
 //@   props C15
+//@   bounds-safe
 //@   ensures result1 == nil ==> result0 != nil && *result0 == update.NewState
 //@   ensures result1 == nil ==> update.NewState != ContractOpen
 //@   ensures result1 == nil ==> invoice.State == ContractOpen || invoice.State == ContractAccepted
@@ -90,6 +95,7 @@ package invoices
 //@
 //@ func getUpdatedHtlcState
 //@   props C15
+//@   bounds-safe
 //@   ensures result2 == nil && result0 ==>
 //@           (invoiceState == ContractSettled && result1 == HtlcStateSettled && htlc.State == HtlcStateAccepted) ||
 //@           (invoiceState == ContractCanceled && result1 == HtlcStateCanceled && htlc.State != HtlcStateCanceled && htlc.State != HtlcStateSettled)
@@ -102,10 +108,12 @@ package invoices
 //@
 //@ func canCancelSingleHtlc
 //@   props C15
+//@   bounds-safe
 //@   ensures result == nil <==> (invoiceState == ContractOpen && htlc.State == HtlcStateAccepted)
 //@
 //@ func resolveHtlc
 //@   props C15
+//@   bounds-safe
 //@   ensures result == nil ==> htlc.State == state
 //@   ensures result != nil ==> htlc.State == old(htlc.State)
 //@   site store InvoiceHTLC.State: assert ret(ResolveHtlc) == nil && value == state
@@ -113,12 +121,14 @@ package invoices
 //@
 //@ func updateInvoiceAmtPaid
 //@   props C15
+//@   bounds-safe
 //@   ensures result == nil ==> invoice.AmtPaid == amt
 //@   site store Invoice.AmtPaid: assert ret(UpdateInvoiceAmtPaid) == nil && value == amt
 //@   site call UpdateInvoiceAmtPaid: assert arg(1) == amt
 //@
 //@ func settleHodlInvoice
 //@   props C15
+//@   bounds-safe
 //@   loop 0 step amtPaid == wrap(prev(amtPaid) + ite(retn(getUpdatedHtlcState, 0), htlc.Amt, 0), 64)
 //@   site call getUpdatedInvoiceState: assert arg(invoice) == invoice && arg(hash) == hash && arg(update) == *update &&
 //@        invoice.HodlInvoice && update.NewState == ContractSettled && update.Preimage != nil
@@ -131,6 +141,7 @@ package invoices
 //@
 //@ func cancelInvoice
 //@   props C15
+//@   bounds-safe
 //@   loop * havoc
 //@   site store Invoice.State: assert value == ContractCanceled && retn(getUpdatedInvoiceState, 1) == nil &&
 //@        *retn(getUpdatedInvoiceState, 0) == ContractCanceled && ret(UpdateInvoiceState) == nil
@@ -140,6 +151,7 @@ package invoices
 //@
 //@ func cancelHTLCs
 //@   props C15
+//@   bounds-safe
 //@   loop * havoc
 //@   site call canCancelSingleHtlc: assert arg(htlc) == htlc && arg(invoiceState) == invoice.State && exists
 //@   site call resolveHtlc: assert ret(canCancelSingleHtlc) == nil && arg(htlc) == htlc && arg(state) == HtlcStateCanceled &&
@@ -147,6 +159,7 @@ package invoices
 //@
 //@ func addHTLCs
 //@   props C15
+//@   bounds-safe
 //@   loop * havoc
 //@   loop 1 step !invoiceIsAMP ==> amtPaid == wrap(prev(amtPaid) +
 //@        ite(invoice.State != ContractOpen && (htlc.State == HtlcStateAccepted || htlc.State == HtlcStateSettled), htlc.Amt, 0), 64)
@@ -161,6 +174,7 @@ package invoices
 //@
 //@ func UpdateInvoice
 //@   props C15
+//@   bounds-safe
 //@   site call cancelHTLCs: assert retn(callback, 0).UpdateType == CancelHTLCsUpdate && arg(0) == invoice && arg(2) == retn(callback, 0) && arg(3) == updater
 //@   site call addHTLCs: assert retn(callback, 0).UpdateType == AddHTLCsUpdate && arg(0) == invoice && arg(1) == hash && arg(3) == retn(callback, 0)
 //@   site call settleHodlInvoice: assert retn(callback, 0).UpdateType == SettleHodlInvoiceUpdate && arg(0) == invoice && arg(1) == hash &&
@@ -171,6 +185,7 @@ package invoices
 //@
 //@ func getUpdatedInvoiceAmpState
 //@   props C15
+//@   bounds-safe
 //@   let had = old(has(invoice.AMPState, setID))
 //@   let prevAmt = old(invoice.AMPState[setID].AmtPaid)
 //@   ensures !had && state != HtlcStateAccepted ==> result1 != nil
@@ -181,11 +196,13 @@ package invoices
 //@
 //@ func acceptHtlcsAmp
 //@   props C15
+//@   bounds-safe
 //@   site call getUpdatedInvoiceAmpState: assert arg(0) == invoice && arg(3) == HtlcStateAccepted && arg(4) == htlc.Amt
 //@   site call UpdateAmpState: assert retn(getUpdatedInvoiceAmpState, 1) == nil
 //@
 //@ func cancelHtlcsAmp
 //@   props C15
+//@   bounds-safe
 //@   site call getUpdatedInvoiceAmpState: assert arg(0) == invoice && arg(3) == HtlcStateCanceled && arg(4) == htlc.Amt
 //@   site call UpdateAmpState: assert retn(getUpdatedInvoiceAmpState, 1) == nil
 //@   site call updateInvoiceAmtPaid: assert ret(UpdateAmpState) == nil && invoice.AmtPaid != 0 && arg(0) == invoice &&
@@ -193,12 +210,14 @@ package invoices
 //@
 //@ func settleHtlcsAmp
 //@   props C15
+//@   bounds-safe
 //@   site call getUpdatedInvoiceAmpState: assert arg(0) == invoice && arg(3) == HtlcStateSettled && arg(4) == 0
 //@   site call UpdateAmpState: assert retn(getUpdatedInvoiceAmpState, 1) == nil
 //@
 //@ // ---- registry layer: which resolution is handed to which HTLC
 //@ func (i *InvoiceRegistry) SettleHodlInvoice$1
 //@   props C15
+//@   bounds-safe
 //@   ensures result1 == nil ==> result0 != nil && invoice.State != ContractOpen && invoice.State != ContractCanceled && invoice.State != ContractSettled
 //@   ensures invoice.State == ContractOpen ==> result1 == ErrInvoiceStillOpen
 //@   ensures invoice.State == ContractCanceled ==> result1 == ErrInvoiceAlreadyCanceled
@@ -208,6 +227,7 @@ package invoices
 //@
 //@ func (i *InvoiceRegistry) SettleHodlInvoice
 //@   props C15
+//@   bounds-safe
 //@   loop * havoc
 //@   site call Hash: assert arg(0) == addr(preimage)
 //@   site call InvoiceRefByHash: assert arg(0) == ret(Hash)
@@ -220,6 +240,7 @@ package invoices
 //@
 //@ func (i *InvoiceRegistry) notifyExitHopHtlcLocked$2
 //@   props C15
+//@   bounds-safe
 //@   loop * havoc
 //@   site call resolveReplayedHtlc: assert arg(ctx) == ctx && arg(inv) == inv
 //@   site call updateInvoice as domain: domain 0 <= ctx.currentHeight && ctx.currentHeight <= 1<<30 && 0 <= ctx.finalCltvRejectDelta &&
@@ -234,6 +255,7 @@ package invoices
 //@
 //@ func (i *InvoiceRegistry) cancelInvoiceImpl$1
 //@   props C15
+//@   bounds-safe
 //@   site store InvoiceUpdateDesc.UpdateType: assert value == CancelInvoiceUpdate && ret(shouldCancel)
 //@   site store InvoiceStateUpdateDesc.NewState: assert value == ContractCanceled && ret(shouldCancel)
 //@   site call shouldCancel: assert arg(0) == invoice.State && arg(1) == cancelAccepted
@@ -241,6 +263,7 @@ package invoices
 //@
 //@ func (i *InvoiceRegistry) cancelInvoiceImpl
 //@   props C15
+//@   bounds-safe
 //@   loop * havoc
 //@   site call UpdateInvoice: assert arg(2) == ret(InvoiceRefByHash, 0) && arg(3) == nil
 //@   site call InvoiceRefByHash: assert arg(0) == payHash
@@ -250,12 +273,14 @@ package invoices
 //@
 //@ func (i *InvoiceRegistry) cancelSingleHtlc$1
 //@   props C15
+//@   bounds-safe
 //@   site store InvoiceUpdateDesc.UpdateType: assert value == CancelHTLCsUpdate && invoice.State == ContractOpen && htlcState == HtlcStateAccepted
 //@   site mapupdate canceledHtlcs: assert arg(key) == key
 //@   ensures invoice.State != ContractOpen ==> result0 == nil && result1 == nil
 //@
 //@ func (i *InvoiceRegistry) cancelSingleHtlc
 //@   props C15
+//@   bounds-safe
 //@   loop * havoc
 //@   site call UpdateInvoice: assert arg(2) == invoiceRef
 //@   site call NewFailResolution: assert updated && retn(UpdateInvoice, 1) == nil && htlc.State == HtlcStateCanceled &&
@@ -264,6 +289,7 @@ package invoices
 //@
 //@ func (i *InvoiceRegistry) notifyExitHopHtlcLocked
 //@   props C15
+//@   bounds-safe
 //@   loop * havoc
 //@   site call UpdateInvoice: assert arg(2) == ret(invoiceRef) && retn(LookupInvoice, 1) == nil && ret(Intercept) == nil
 //@   site call LookupInvoice: assert arg(2) == ret(invoiceRef)
@@ -280,6 +306,7 @@ package invoices
 //@ // ---- full 64-bit channel id, htlc id, invoice id) and with the state it is told
 //@ func (s *sqlInvoiceUpdater) AddHtlc
 //@   props C15
+//@   bounds-safe
 //@   loop * havoc
 //@   site call ToUint64: assert arg(0) == circuitKey.ChanID
 //@   site call FormatUint: assert arg(0) == ret(ToUint64) && arg(1) == 10
@@ -289,6 +316,7 @@ package invoices
 //@
 //@ func (s *sqlInvoiceUpdater) ResolveHtlc
 //@   props C15
+//@   bounds-safe
 //@   site call ToUint64: assert arg(0) == circuitKey.ChanID
 //@   site call FormatUint: assert arg(0) == ret(ToUint64) && arg(1) == 10
 //@   site call UpdateInvoiceHTLC: assert arg(2).ChanID == ret(FormatUint) && arg(2).HtlcID == swrap(circuitKey.HtlcID, 64) &&
@@ -296,6 +324,7 @@ package invoices
 //@
 //@ func (s *sqlInvoiceUpdater) AddAmpHtlcPreimage
 //@   props C15
+//@   bounds-safe
 //@   site call ToUint64: assert arg(0) == circuitKey.ChanID
 //@   site call FormatUint: assert arg(0) == ret(ToUint64) && arg(1) == 10
 //@   site call UpdateAMPSubInvoiceHTLCPreimage: assert arg(2).ChanID == ret(FormatUint) && arg(2).HtlcID == swrap(circuitKey.HtlcID, 64) &&
